@@ -5,7 +5,7 @@ VERIF = os.path.dirname(os.path.dirname(os.path.abspath(__file__)))
 REPO = os.environ.get("VERIF_REPO", "/repo")
 CACHE = os.path.join(VERIF, ".cache")
 EVIDENCE = os.path.join(VERIF, "evidence")
-KNOWN = os.path.join(VERIF, "known_findings.jsonl")
+KNOWN = os.path.join(VERIF, "known_findings.txt")
 
 os.makedirs(CACHE, exist_ok=True)
 os.makedirs(EVIDENCE, exist_ok=True)
@@ -34,18 +34,14 @@ class Finding:
 
 
 def load_known():
-    """known_findings.jsonl: records {"property","harness","site","shape","what"} suppress the
-    *matching* counterexample only; {"fixed": "..."} records suppress nothing."""
+    """known_findings.txt: `finding: {"property","harness","site","shape","what"}` lines suppress
+    the *matching* counterexample only; `fixed: property=<id> <commit> <what>` lines suppress nothing."""
     out = []
     if os.path.exists(KNOWN):
         for line in open(KNOWN):
             line = line.strip()
-            if not line or line.startswith("#"):
-                continue
-            r = json.loads(line)
-            if "fixed" in r:
-                continue
-            out.append(r)
+            if line.startswith("finding:"):
+                out.append(json.loads(line[len("finding:"):].strip()))
     return out
 
 
